@@ -101,6 +101,21 @@ CLAIMED["C19"] = dict(
     note=NOTE + "That a label's value equals the offset of the byte after it is C02's theorem; here it is checked on every run with marker words.",
 )
 
+CLAIMED["C05"] = dict(
+    text="Theorems about the model of the operator implementations on unbounded Int: for b != 0, a = b*(a/b) + (a%b) with the remainder "
+         "between 0 and b (floor semantics, both signs of the divisor); division by zero and negative shift counts are reported; << is "
+         "multiplication by 2^b, >> and _ are floor division by 2^b; & | ^ ~ are bit-for-bit the Boolean combination of the two's-complement "
+         "bits of (possibly negative) operands at every bit position (via Mathlib's Int.testBit lemmas); ~x = -x-1; the regenerated operator "
+         "table has exactly the C-like precedences, left associativity and implementations. The model's own transliterated parser and "
+         "evaluator are tied to the code by correspondence on random trees of depth <= 6 in every bracket style and literal spelling; the "
+         "independent Lean Spec evaluator judges every value on the generator's tree.",
+    design_ref="DESIGN.md §5 C05",
+    technique="Lean 4 theorems (omega, core Int lemmas, Mathlib Int.testBit) + parser/evaluator model vs implementation correspondence + independent Spec evaluator",
+    note=NOTE + "The parse-is-the-C-like-reading theorems (flatten/normal form of the shunting loop) are stage 2; until then precedence and "
+         "associativity are covered by the operator-table theorem plus the tree-level oracle, not by a theorem about the parser. Grammar G admits "
+         "prefix operators only where a (sub)expression starts (the implementation rejects 'a + ~b' with an error).",
+)
+
 PENDING_REASON = "check not built yet (build in progress; see DESIGN.md §8 for the order)"
 
 
